@@ -242,7 +242,7 @@ class MinimizerROOTTMinuit(MinimizerBase):
 
     @parameter_values.setter
     def parameter_values(self, new_values):
-        self._par_val = np.array(new_values)
+        self._par_val = np.array(new_values, dtype=float)  # element-wise stores must not truncate
         self.reset()
 
     @property
